@@ -7,6 +7,7 @@ import Mathlib.Tactic.SplitIfs
 import Mathlib.Data.List.Nodup
 import Resvg.Writer.Escape
 import Resvg.Generated.WriterTables
+import Resvg.Writer.Color
 import Resvg.Props.C05
 
 namespace Resvg.Props.C07
@@ -183,5 +184,41 @@ theorem C07_escape_attr_source_is_model (s : List Char) :
     · by_cases hl : c = '<'
       · subst hl; simp [lt]
       · simp [hc, hl]
+
+/-! ### values written raw (no escaping): colours -/
+
+theorem wfAtt_safe (q : Char) (l : List Char) (h : ∀ c ∈ l, c ≠ '&' ∧ c ≠ '<' ∧ c ≠ q) :
+    wfAtt q l = true ∧ decodeAtt l = l := by
+  induction l with
+  | nil => exact ⟨rfl, rfl⟩
+  | cons c t ih =>
+    have hc := h c (List.mem_cons_self)
+    have ht := ih (fun x hx => h x (List.mem_cons_of_mem _ hx))
+    constructor
+    · rw [wfAtt_cons_other q c t hc.1]
+      simp [hc.1, hc.2.1, hc.2.2, ht.1]
+    · rw [decodeAtt.eq_def]; split <;> simp_all
+
+theorem hexDigit_safe (i : Nat) : hexDigit i ≠ '&' ∧ hexDigit i ≠ '<' ∧ hexDigit i ≠ '"' ∧ hexDigit i ≠ '\'' := by
+  rcases Nat.lt_or_ge i 16 with h | h
+  · have key : (List.range 16).all (fun i => hexDigit i != '&' && hexDigit i != '<' && hexDigit i != '"' && hexDigit i != '\'') = true := by decide +kernel
+    have := (List.all_eq_true.mp key) i (List.mem_range.mpr h)
+    simp only [Bool.and_eq_true, bne_iff_ne, ne_eq] at this
+    exact ⟨this.1.1.1, this.1.1.2, this.1.2, this.2⟩
+  · have : hexDigit i = '?' := by
+      unfold hexDigit
+      simp [List.getD, List.getElem?_eq_none (show hexChars.length ≤ i by simpa [hexChars] using h)]
+    rw [this]; decide
+
+/-- **colours are written raw and need no escaping**: for either quote character the value `write_color`
+    writes is a well-formed attribute body and decodes to itself -/
+theorem C07_color_wellformed (q : Char) (hq : q = '"' ∨ q = '\'') (r g b : Nat) :
+    wfAtt q (writeColor r g b) = true ∧ decodeAtt (writeColor r g b) = writeColor r g b := by
+  apply wfAtt_safe
+  intro c hc
+  simp only [writeColor, int2hex, List.cons_append, List.nil_append, List.mem_cons, List.not_mem_nil, or_false] at hc
+  rcases hc with h | h | h | h | h | h | h
+  · subst h; rcases hq with rfl | rfl <;> decide
+  all_goals (subst h; have := hexDigit_safe; rcases hq with rfl | rfl <;> exact ⟨(this _).1, (this _).2.1, by first | exact (this _).2.2.1 | exact (this _).2.2.2⟩)
 
 end Resvg.Props.C07
